@@ -33,18 +33,18 @@ def run_cli(ctx):
             open(os.path.join(d, p), "w").write(t if isinstance(t, str) else json.dumps(t))
         return d
 
-    def sign(d, args, stdin):
-        p = subprocess.run([gopki, "sign"] + args + [d], input=stdin, capture_output=True, timeout=120, env=dict(os.environ, TZ="UTC"))
+    def sign(d, args, stdin, pre=(), dirs=None):
+        p = subprocess.run([gopki] + list(pre) + ["sign"] + args + ([d] if dirs is None else dirs), input=stdin, capture_output=True, timeout=120, env=dict(os.environ, TZ="UTC"))
         return p.returncode, (p.stdout + p.stderr).decode(errors="replace")
 
-    def observe(what, d, args, flags, facts, answer_class, stdin, open_ok=True, valid_ok=True, allowed=("r.pem", "s.pem")):
+    def observe(what, d, args, flags, facts, answer_class, stdin, open_ok=True, valid_ok=True, allowed=("r.pem", "s.pem"), pre=(), dirs=None, target="r.pem", exit_free=False):
         before = snap(d)
-        code, out = sign(d, args, stdin)
+        code, out = sign(d, args, stdin, pre=pre, dirs=dirs)
         after = snap(d)
         changed = sorted(k for k in set(before) | set(after) if before.get(k) != after.get(k))
         rows.append({"id": len(rows) + 1, "what": what, "flags": flags, "facts": facts, "answer": answer_class, "openOK": open_ok, "validOK": valid_ok,
-                     "exit": code, "anyChanged": bool(changed), "rootChanged": "r.pem" in changed,
-                     "otherChanged": any(c not in allowed for c in changed), "changed": changed,
+                     "exit": code, "anyChanged": bool(changed), "rootChanged": target in changed,
+                     "otherChanged": any(c not in allowed for c in changed), "changed": changed, "exitFree": exit_free,
                      "stdout": out[-300:].replace("\x00", "")})
 
     F = lambda m=True, c=True, e=False, o=False, a=False: {"m": m, "c": c, "e": e, "o": o, "a": a}
@@ -180,6 +180,35 @@ def run_cli(ctx):
             rows[-1]["rootChanged"] = False       # judged as "the planned certificate was not generated"
         # (a directory the first run refused is refused again: exit 1, nothing written)
         observe("layout: %s: second run" % name, d, [], F(), good, "y", b"y\n", allowed=(), open_ok=rows[-1]["openOK"])
+    # 7. the verbosity switches are observation only: the same decisions with -v and with -d (and with both)
+    for pre in (["-v"], ["-d"], ["-v", "-d"], ["--verbose"], ["--debug"]):
+        d = fresh("verbose-%d" % len(rows))
+        observe("default flags, no artifact, %s" % " ".join(pre), d, [], F(), absent, "other", b"", pre=pre)
+        observe("default flags again, %s" % " ".join(pre), d, [], F(), good, "y", b"y\n", pre=pre)
+        observe("generate-all, answer n, %s" % " ".join(pre), d, ARGS(F(a=True)), F(a=True), good, "other", b"n\n", pre=pre)
+        observe("generate-all, answer y, %s" % " ".join(pre), d, ARGS(F(a=True)), F(a=True), good, "y", b"y\n", pre=pre)
+        observe("all flags false, %s" % " ".join(pre), d, ["-m=false", "-c=false"], F(False, False), good, "y", b"y\n", pre=pre)
+    # 8. a command line that names no directory, two directories, a directory that does not exist, a file: nothing is written anywhere
+    #    (the exit status of these is not the topic of any listed property: recorded, not judged)
+    d = fresh("args")
+    d2 = fresh("args-second")
+    for what, dirs in (("no directory argument", []), ("two directory arguments", [d, d2]), ("a directory that does not exist", [os.path.join(d, "nowhere")]),
+                       ("a file instead of a directory", [os.path.join(d, "r.yaml")])):
+        for dd in (d, d2):
+            observe("command line: %s" % what, dd, [], F(), absent, "y", b"y\n", open_ok=False, dirs=dirs, exit_free=True, allowed=())
+    # 9. the shipped documentation is a pair of valid configurations: `doc example profile` and `doc example certificate`, saved as files,
+    #    make a directory that a default run signs (the certificate names the profile) and a second run leaves alone
+    ex = {}
+    for kind in ("profile", "certificate"):
+        p = subprocess.run([gopki, "doc", "example", kind], capture_output=True, timeout=60)
+        if p.returncode != 0 or not p.stdout.strip():
+            raise CheckError("`gopki doc example %s` gave exit %d and %d bytes" % (kind, p.returncode, len(p.stdout)))
+        ex[kind] = p.stdout.decode()
+    d = fresh("docexamples", extra={"profiles/example-profile.yaml": ex["profile"], "my/my-certificate.yaml": ex["certificate"]})
+    arts = ("r.pem", "my/my-certificate.pem")
+    observe("doc examples as a directory: first run", d, [], F(), absent, "other", b"", allowed=arts, target="my/my-certificate.pem")
+    observe("doc examples as a directory: second run", d, [], F(), good, "y", b"y\n", allowed=())
+    observe("doc examples as a directory: generate-all, answer n", d, ARGS(F(a=True)), F(a=True), good, "other", b"n\n", allowed=())
     return rows
 
 
